@@ -203,7 +203,9 @@ def run(ctx):
     ctx.floor("C04.6 obligations on application-supplied framing headers", n6, 3)
 
     # ---- C04.4 head templates; head before body
-    g = wmh
+    # (the head writer with the helpers of its file spliced in: the status line and the header lines may have writers of their own)
+    import inline
+    g = inline.inlined(facts, wmh.id, stop=lambda d: facts.fns[d].rec.get("local") and facts.fns[d].file != wmh.file, extern_ok=Q.std_small)
     ctx.touch(g)
     fmts = [(bb, t) for bb, t in g.calls() if t.get("callee") == "std::io::Write::write_fmt"]
     tpls = []
@@ -212,7 +214,7 @@ def run(ctx):
         tpls.append((bb, tpl, x))
     status = [x for x in tpls if x[1] and "HTTP/" in x[1]]
     ok = len(status) == 1 and status[0][1] == ["HTTP/", "ARG", ".", "ARG", " ", "ARG", " ", "ARG", "\r\n"]
-    ctx.ob("C04.4", "%s|status-line-template" % g.id, "the status line is `HTTP/<major>.<minor> <code> <reason>CRLF`", ok, g.loc(status[0][0]) if status else g.file, str(status[0][1]) if status else None)
+    ctx.ob("C04.4", "%s|status-line-template" % wmh.id, "the status line is `HTTP/<major>.<minor> <code> <reason>CRLF`", ok, g.loc(status[0][0]) if status else g.file, str(status[0][1]) if status else None)
     if status:
         # argument order: version.0, version.1, status.0, reason phrase
         x = status[0][2]
@@ -251,14 +253,32 @@ def run(ctx):
             order = [x if x in ("ver.0", "ver.1", "status", "reason") else "?" for x in order]
             ok = order == ["ver.0", "ver.1", "status", "reason"]
             descr = order
-        ctx.ob("C04.4", "%s|status-line-arguments" % g.id, "filled with the version's two numbers, the numeric status and its reason phrase, in that order", ok, g.loc(status[0][0]), str(descr))
+        ctx.ob("C04.4", "%s|status-line-arguments" % wmh.id, "filled with the version's two numbers, the numeric status and its reason phrase, in that order", ok, g.loc(status[0][0]), str(descr))
     lits = [x[1] for x in tpls if x[1] and x[1] != (status[0][1] if status else None)]
-    ctx.ob("C04.4", "%s|separators" % g.id, "headers are separated by `: ` and ended by CRLF, and the head ends with an empty line", sorted(map(tuple, lits)) == sorted([(": ",), ("\r\n",), ("\r\n",)]), g.file, str(lits))
+    ctx.ob("C04.4", "%s|separators" % wmh.id, "headers are separated by `: ` and ended by CRLF, and the head ends with an empty line", sorted(map(tuple, lits)) == sorted([(": ",), ("\r\n",), ("\r\n",)]), g.file, str(lits))
     # the terminating CRLF is on every successful path
     finals = [bb for bb, tpl, x in tpls if tpl == ["\r\n"] and not g.in_loop(bb)]
-    oks = [bb for bb, i, s in g.assigns() if s["lhs"] == {"l": 0, "p": []} and s["rhs"].get("variant") == "Ok"]
-    ok = len(finals) == 1 and oks and all(g.dominates(finals[0], o, unwind=False) for o in oks)
-    ctx.ob("C04.4", "%s|blank-line-always" % g.id, "every successfully written head ends with the blank line", ok, g.file)
+    # on every abstract path that can return success, the last thing written is that blank line
+    ok = len(finals) == 1
+    n_ok = 0
+    detail = None
+    if ok:
+        for p in absint.explore(g, 0, None, max_visits=2, max_paths=4000):
+            if p.end[0] != "return":
+                continue
+            r = p.ret()
+            if r[0] == "agg" and r[2] == "Err":
+                continue
+            # (a path that returns what an earlier write answered, after that write was seen to fail, is an error path)
+            hc = absint.head_call(r)
+            if hc is not None and any(c and c[0] == "variant" and c[2] in ("Err", "Break") and absint.mentions_call(c[3], hc) for bb, c in p.conds):
+                continue
+            n_ok += 1
+            writes = [e for e in p.calls() if (e[6] or "").startswith("std::io::Write::write") or re.search(r"Write>::write(_all|_fmt)?$", e[2])]
+            if not writes or writes[-1][0] != finals[0]:
+                ok = False
+                detail = "a successful path whose last write is not the blank line"
+    ctx.ob("C04.4", "%s|blank-line-always" % wmh.id, "every successfully written head ends with the blank line", ok and n_ok > 0, g.file, detail)
     return {}
 
 
